@@ -19,6 +19,17 @@ def conc(v, what="index"):
     return v.as_long()
 
 
+def conc_fork(I, v, what="index", limit=16):
+    """like conc, but a symbolic value is made concrete by case distinction (one explored path per feasible value 0..limit)"""
+    v = z3.simplify(v)
+    if z3.is_bv_value(v):
+        return v.as_long()
+    for k in range(limit + 1):
+        if I.path.decide(v == z3.BitVecVal(k, v.size())):
+            return k
+    raise Inconclusive("symbolic %s into a non-byte container (more than %d)" % (what, limit))
+
+
 class IterV:
     """slice::Iter<T> over a python list (shared), position concrete"""
 
@@ -137,7 +148,15 @@ def m_vec_index(I, m, argv, fr, dest, c):
     items = items_of(base)
     i = z3.simplify(idx)
     if not z3.is_bv_value(i):
-        raise Inconclusive("symbolic index into Vec")
+        # symbolic index into a short concrete-length vector: case distinction over the positions, out of bounds as one more case
+        if len(items) > 16:
+            raise Inconclusive("symbolic index into Vec")
+        if not I.path.decide(z3.ULT(i, z3.BitVecVal(len(items), i.size()))):
+            raise Panic("index out of bounds: the len is %d but the index is symbolic" % len(items))
+        for k in range(len(items)):
+            if I.path.decide(i == z3.BitVecVal(k, i.size())):
+                return Ref(Loc(items, k))
+        raise Inconclusive("symbolic index into Vec: no feasible position")
     if i.as_long() >= len(items):
         raise Panic("index out of bounds: the len is %d but the index is %d" % (len(items), i.as_long()))
     return Ref(Loc(items, i.as_long()))
@@ -153,7 +172,7 @@ def m_slice_get(I, m, argv, fr, dest, c):
 
 def m_from_elem(I, m, argv, fr, dest, c):
     v, n = argv
-    return VecV([deep_copy(v) for _ in range(conc(n, "vec! length"))], "Vec<%s>" % m.group("t"))
+    return VecV([deep_copy(v) for _ in range(conc_fork(I, n, "vec! length"))], "Vec<%s>" % m.group("t"))
 
 
 def m_deque_new(I, m, argv, fr, dest, c):
@@ -472,6 +491,13 @@ def m_mem_swap(I, m, argv, fr, dest, c):
     return Unit
 
 
+def m_mem_replace(I, m, argv, fr, dest, c):
+    r, new = argv
+    old = r.loc.get()
+    r.loc.set(new)
+    return old
+
+
 def m_mem_take_option(I, m, argv, fr, dest, c):
     r = argv[0]
     v = r.loc.get()
@@ -629,5 +655,6 @@ def container_models():
         (R(r"^core::(?P<t>f32|f64)::<impl f(?:32|64)>::to_(?P<e>le|be)_bytes$"), m_float_to_bytes),
         (R(r"^core::(?:f32|f64)::<impl f(?:32|64)>::to_bits$"), m_float_to_bits),
         (R(r"^std::mem::swap::<.*>$|^core::mem::swap::<.*>$"), m_mem_swap),
+        (R(r"^std::mem::replace::<.*>$|^core::mem::replace::<.*>$"), m_mem_replace),
         (R(r"^Option::<.*>::take$"), m_mem_take_option),
     ]
